@@ -324,6 +324,114 @@ def run_http(ctx, shape, scheme, ctype, fault, tls, blen):
         env.close()
 
 
+SEQ_EVENTS = ['nothing', 'remove-cert', 'remove-key', 'remove-ca',
+              'restore-all', 'timeout-on', 'timeout-off', 'ssl-on']
+SEQ_BODIES = ['True', '"True"', 'true', 'False', '']
+
+
+def run_sequence(ctx, steps, shape, first):
+    """One long-lived enforcer makes several https: checks; between them
+    TLS files disappear and come back and the transport starts and stops
+    failing.  Every check is decided by the files and the reply of *that*
+    moment: a missing file raises and no request is sent, a fault raises,
+    otherwise allow iff the reply is True."""
+    from oslo_policy import _external, policy
+    common.set_ctx(ctx)
+    stub = _Stub()
+    saved = _external.requests
+    _external.requests = stub
+    env = common.Scratch()
+    files = {'cert': env.path('c.pem'), 'key': env.path('k.pem'),
+             'ca': env.path('ca.pem')}
+    present = {}
+
+    def put(which, there):
+        p = files[which]
+        if there:
+            open(p, 'w').write('pem')
+        elif os.path.exists(p):
+            os.unlink(p)
+        present[which] = there
+    try:
+        for w in files:
+            put(w, first != 'missing-' + w)
+        conf = common.new_conf(
+            remote_ssl_client_crt_file=files['cert'],
+            remote_ssl_client_key_file=files['key'],
+            remote_ssl_verify_server_crt=True,
+            remote_ssl_ca_crt_file=files['ca'])
+        rules, pol = _rules(shape, 'https')
+        enf = common.mk_enforcer(rules=policy.Rules.from_dict(rules),
+                                 conf=conf)
+        creds = {'roles': ['member'], 'user_id': 'u'}
+        trace = []
+        for i in range(steps):
+            if i:
+                ev = SEQ_EVENTS[int(ctx.choice('event%d' % i, list(range(
+                    len(SEQ_EVENTS)))))]
+                if ev.startswith('remove-'):
+                    put(ev[7:], False)
+                elif ev == 'restore-all':
+                    for w in files:
+                        put(w, True)
+                elif ev == 'timeout-on':
+                    stub.fault = 'timeout'
+                elif ev == 'ssl-on':
+                    stub.fault = 'ssl'
+                elif ev == 'timeout-off':
+                    stub.fault = 'none'
+            else:
+                ev = first
+            body = SEQ_BODIES[int(ctx.choice('body%d' % i, list(range(len(
+                SEQ_BODIES)))))]
+            stub.body = body
+            del stub.calls[:]
+            raised = None
+            try:
+                got = bool(enf.enforce(pol, {'name': 'srv1'}, creds))
+            except Exception as exc:
+                raised = type(exc).__name__
+                got = None
+            tls_error = not all(present.values())
+            ok = body in ('True', '"True"')
+            want = {'direct': ok, 'not': not ok, 'alias': ok,
+                    'and-role': ok, 'or-role': ok, 'alias-chain': ok,
+                    'nested': ok}[shape]
+            trace.append([ev, body, dict(present), stub.fault, got, raised])
+            det = {'shape': shape, 'trace': copy.deepcopy(trace)}
+            if tls_error or stub.fault != 'none':
+                ctx.cover('sequence:fault-after-healthy' if i and any(
+                    t[5] is None for t in trace[:-1]) else 'sequence:fault')
+                ctx.require(raised is not None, 'sequence:fault-must-raise',
+                            detail=det)
+            else:
+                if i and any(t[5] is not None for t in trace[:-1]):
+                    ctx.cover('sequence:healthy-after-fault')
+                ctx.require(raised is None and got == want,
+                            'sequence:decision', detail=det)
+            ctx.require(bool(stub.calls) == (not tls_error),
+                        'sequence:call-count', detail=det)
+            for url, kw in stub.calls:
+                ctx.require(tuple(kw.get('cert') or ()) == (
+                    files['cert'], files['key']) and
+                    kw.get('verify') == files['ca'],
+                    'sequence:tls-arguments', detail=det)
+        ctx.observe('trace', trace)
+    finally:
+        _external.requests = saved
+        env.close()
+
+
+def cubes_sequence(tier, seed):
+    out = []
+    for shape in ('direct', 'alias', 'not'):
+        for first in ('healthy', 'missing-cert', 'missing-key',
+                      'missing-ca'):
+            out.append({'steps': 2 if tier == 'quick' else 3,
+                        'shape': shape, 'first': first})
+    return out
+
+
 def cubes_http(tier, seed):
     out = []
     L = 7 if tier == 'quick' else 9
@@ -352,12 +460,17 @@ def cubes_http(tier, seed):
     return out
 
 
-HARNESSES = {'http': {'fn': run_http, 'cubes': cubes_http}}
+HARNESSES = {'http': {'fn': run_http, 'cubes': cubes_http},
+             'sequence': {'fn': run_sequence, 'cubes': cubes_sequence}}
 REQUIRED_COVER = ['shape:' + s for s in SHAPES] + [
-    'fault:' + f for f in FAULTS] + ['tls-error', 'allowed', 'denied']
+    'fault:' + f for f in FAULTS] + ['tls-error', 'allowed', 'denied',
+                                     'sequence:fault-after-healthy',
+                                     'sequence:healthy-after-fault']
 
 
 def cube_weight(h, p):
+    if h == 'sequence':
+        return 40 ** p['steps']
     return 3 ** p['blen']
 
 
@@ -369,7 +482,12 @@ def evidence(tier):
                    'content types; the check placed in %d expression '
                    'shapes; all subsets of roles {admin, member}' % (
                        7 if tier == 'quick' else 9, BODY_ALPHABET, FAULTS,
-                       TLS, len(SHAPES))},
+                       TLS, len(SHAPES)),
+                   'sequence': '%d consecutive https: checks on one '
+                   'enforcer; between checks any of %r; reply one of %r; '
+                   'first check healthy or with one TLS file missing; 3 '
+                   'placements' % (2 if tier == 'quick' else 3, SEQ_EVENTS,
+                                   SEQ_BODIES)},
         'symbols': ['body#i: Int code points', 'status: Int',
                     'role.<r>: Bool'],
         'stubs': ['_external.jsonutils.loads -> model of the JSON grammar '
